@@ -264,7 +264,7 @@ func (e *Exec) havocLocExpr(s *State, cl *Clause, x ast.Expr, env map[types.Obje
 		nv := e.mapArr([]Value{old}, func(ts []*Term) *Term {
 			o := ts[0]
 			fresh := c.Fresh("mod", o.Sort)
-			q := &Quant{forall: true, kind: quantIdx, always: true}
+			q := &Quant{forall: true, kind: quantIdx, always: true, arrays: []string{fresh.S}}
 			q.body = func(i *Term) *Term {
 				in := c.And(c.ULe(lo, i), c.ULt(i, hi))
 				return c.Or(in, c.Eq(c.Select(fresh, i), c.Select(o, i)))
